@@ -198,3 +198,61 @@ Section ObjectDbProofs.
     cbn. rewrite El, Elr. reflexivity.
   Qed.
 End ObjectDbProofs.
+
+(* ------------------------------------------------------------------------------------------------
+   Ignored resources inside recorded change sets; the empty scope. *)
+Lemma data_leaves_to_data keep c : data_leaves (to_data keep c) = map (to_data keep) (leaves c).
+Proof.
+  induction c as [p n o|p k q|p k|p k|d cs t IH] using change_ind'.
+  - destruct o; reflexivity.
+  - cbn [to_data leaves map]. destruct keep; reflexivity.
+  - reflexivity.
+  - reflexivity.
+  - cbn [to_data leaves data_leaves]. change (text_eqb t_ChangeSet t_ChangeSet) with true. cbv iota.
+    induction IH as [|x xs Hx _ IHxs]; [reflexivity|].
+    cbn [map flat_map]. rewrite map_app, Hx, IHxs. reflexivity.
+Qed.
+
+Theorem saved_data_keeps_every_leaf keep c :
+  data_leaves (to_data keep c) = map (to_data keep) (leaves c) /\
+  length (data_leaves (to_data keep c)) = length (leaves c).
+Proof. rewrite data_leaves_to_data, map_length. split; reflexivity. Qed.
+
+Theorem reload_keeps_every_leaf (ign : text -> bool) c c' :
+  of_data true (to_data true c) = Some c' ->
+  leaves c' = leaves c /\ ignored_leaves ign c' = ignored_leaves ign c /\
+  changed_paths c' = changed_paths c /\ interesting ign c' = interesting ign c.
+Proof. rewrite change_data_roundtrip. intros [= <-]. repeat split. Qed.
+
+Lemma trim_idem limit l : trim limit (trim limit l) = trim limit l.
+Proof. apply trim_short, trim_length. Qed.
+
+Lemma trim_snoc limit l (c : change) : 0 < limit -> exists pre, trim limit (l ++ [c]) = pre ++ [c].
+Proof.
+  intros H. unfold trim. rewrite app_length. cbn [length].
+  exists (skipn (length l + 1 - limit) l). rewrite skipn_app.
+  replace (length l + 1 - limit - length l) with 0 by lia. reflexivity.
+Qed.
+
+(* A change that History.do records is, after close and reopen, the last entry of the undo list and
+   is the same change — all its children, those on ignored resources included. *)
+Theorem recorded_change_reloads_whole (ign : text -> bool) limit h c :
+  interesting ign c = true -> 0 < limit ->
+  exists pre, reopen true (close true limit (hist_do ign limit h c)) =
+              Some {| undo_list := pre ++ [c]; redo_list := [] |}.
+Proof.
+  intros Hi Hl. rewrite reopen_trimmed. unfold hist_do. cbn [undo_list redo_list]. rewrite Hi, trim_idem.
+  destruct (trim_snoc limit (undo_list h) c Hl) as [pre ->]. exists pre. reflexivity.
+Qed.
+
+Theorem ignored_only_change_not_recorded (ign : text -> bool) limit h c :
+  interesting ign c = false ->
+  hist_do ign limit h c = {| undo_list := undo_list h; redo_list := [] |}.
+Proof. intros Hi. unfold hist_do. rewrite Hi. reflexivity. Qed.
+
+(* The scope without facts: its state is a real (non-None) value and restores two empty tables, for
+   every digit predicate. *)
+Theorem scopeinfo_empty_state (isdig : N -> bool) :
+  exists s, getstate isdig (PDict []) (PDict []) = Some s /\
+            setstate isdig s = Some (PDict [], PDict []).
+Proof. eexists. split; reflexivity. Qed.
